@@ -21,51 +21,104 @@ static unsigned put_str(char *dst, unsigned pos, const char *s, unsigned max)
     for (i = 0; i < max && s[i]; i++) dst[pos++] = s[i];
     return pos;
 }
-static unsigned put_dec(char *dst, unsigned pos, long v)
-{
-    char tmp[24]; int n = 0; unsigned long u = (unsigned long)v;
-    if (v < 0) { dst[pos++] = '-'; u = 0ul - u; }
-    do { tmp[n++] = (char)('0' + (int)(u % 10)); u /= 10; } while (u && n < 24);
-    while (n > 0) dst[pos++] = tmp[--n];
-    return pos;
-}
+#ifndef KIND
+#define KIND 0
+#endif
+/* the format strings of every iauth_send() call site in the modules; one job per format */
+#if KIND == 0
+#define F "o %s"
+#elif KIND == 1
+#define F "U %s"
+#elif KIND == 2
+#define F "u %s"
+#elif KIND == 3
+#define F "N %s"
+#elif KIND == 4
+#define F "I %s"
+#elif KIND == 5
+#define F "M :%s"
+#elif KIND == 6
+#define F "C :%s"
+#elif KIND == 7
+#define F "k :%s"
+#elif KIND == 8
+#define F "R %s %s"
+#elif KIND == 9
+#define F "R %s"
+#elif KIND == 10
+#define F "D %s"
+#elif KIND == 11
+#define F "D"
+#elif KIND == 12
+#define F "d"
+#elif KIND == 13
+#define F "> :%s"
+#elif KIND == 14
+#define F "G %d"
+#elif KIND == 15
+#define F "A %s :%s"
+#elif KIND == 16
+#define F "S %s :%s"
+#elif KIND == 17
+#define F "X %s %s :%s"
+#elif KIND == 18
+#define F "V :%s %s"
+#elif KIND == 19
+#define F "a"
+#elif KIND == 20
+#define F "s"
+#else
+#define F "O S%s"
+#endif
 
 void h_send(void)
 {
-    static const char *const fmts[] = { "o %s", "U %s", "u %s", "N %s", "I %s", "M :%s", "C :%s", "k :%s", "R %s %s", "R %s", "D %s", "D", "d",
-                                        "> :%s", "G %d", "A %s :%s", "S %s :%s", "X %s %s :%s", "V :%s %s", "a", "s", "O S%s" };
     char want[128]; unsigned w = 0, i, nl = 0;
     const char *f;
     req = mk_request();
-    V_IN(in_kind); V_IN(in_arg0); V_IN(in_arg1); V_IN(in_with_req);
-    V_ASSUME(in_kind >= 0 && in_kind < 22);
+    V_IN(in_arg0); V_IN(in_arg1);
+    in_kind = KIND; in_with_req = (KIND < 13);
     in_arg0.s[11] = 0; in_arg1.s[11] = 0;
     /* arguments are slices of an input line: they contain no newline (tokenizer, C08) */
     for (i = 0; i < 12; i++) V_ASSUME(in_arg0.s[i] != '\n' && in_arg1.s[i] != '\n');
     for (i = 0; i < IRC_NTOP_MAX; i++) V_ASSUME(req->text_addr[i] != '\n' && req->text_addr[i] != ' ');
     V_ASSUME(req->text_addr[0] != '\0');
-    f = fmts[in_kind];
-    if (in_kind < 13) V_ASSUME(in_with_req); else V_ASSUME(!in_with_req);
+    f = F;
     g_out_len = 0;
-    if (in_kind == 14) iauth_send(NULL, f, 7);
-    else if (in_kind == 17) iauth_send(NULL, f, in_arg0.s, in_arg1.s, "q");
-    else iauth_send(in_with_req ? req : NULL, f, in_arg0.s, in_arg1.s);
+#if KIND == 14
+    iauth_send(NULL, F, 7);
+#elif KIND == 17
+    iauth_send(NULL, F, in_arg0.s, in_arg1.s, "q");
+#elif KIND < 13
+    iauth_send(req, F, in_arg0.s, in_arg1.s);
+#else
+    iauth_send(NULL, F, in_arg0.s, in_arg1.s);
+#endif
 
-    /* expected line, written from the protocol: <word> <id> <addr> <port><rest>\n */
+    /* the line, read back as the server would: <word> <id> <addr> <port><rest>\n */
     if (in_with_req) {
-        want[w++] = f[0]; want[w++] = ' ';
-        w = put_dec(want, w, req->client); want[w++] = ' ';
-        w = put_str(want, w, req->text_addr, IRC_NTOP_MAX); want[w++] = ' ';
-        w = put_dec(want, w, req->remote_port);
-        /* rest of the format after the first word */
+        unsigned p = 0, nd = 0; long v = 0; int neg = 0, ok = 1;
+        ok = ok && g_out[p++] == f[0] && g_out[p++] == ' ';
+        if (g_out[p] == '-') { neg = 1; p++; }
+        for (i = 0; i < 11; i++) if (g_out[p] >= '0' && g_out[p] <= '9') { v = v * 10 + (g_out[p] - '0'); p++; nd++; }
+        ok = ok && nd > 0 && (neg ? -v : v) == (long)req->client;
+        ok = ok && g_out[p++] == ' ';
+        for (i = 0; i < IRC_NTOP_MAX; i++) if (req->text_addr[i] != '\0' && ok) { ok = ok && g_out[p] == req->text_addr[i]; p++; } else break;
+        ok = ok && g_out[p++] == ' ';
+        v = 0; nd = 0;
+        for (i = 0; i < 6; i++) if (g_out[p] >= '0' && g_out[p] <= '9') { v = v * 10 + (g_out[p] - '0'); p++; nd++; }
+        ok = ok && nd > 0 && v == (long)req->remote_port;
+        V_ASSERT(ok, "C09: a client-directed line starts with <type> <the client's id> <its address text> <the announced port>");
+        /* the rest of the format follows verbatim, %s replaced by the arguments */
+        w = 0;
         for (i = 1; f[i]; i++) {
-            if (f[i] == '%' && f[i + 1] == 's') { w = put_str(want, w, (f[i - 1] == ' ' && i > 3 && in_kind == 8) ? in_arg1.s : in_arg0.s, 12); i++; }
+            if (f[i] == '%' && f[i + 1] == 's') { w = put_str(want, w, (in_kind == 8 && i > 3) ? in_arg1.s : in_arg0.s, 12); i++; }
             else want[w++] = f[i];
         }
         want[w++] = '\n';
-        V_ASSERT(g_out_len == w, "C09: a client-directed line is <word> <id> <address text> <port><arguments> and one newline (length)");
-        for (i = 0; i < 128; i++)
-            if (i < w && i < g_out_len) V_ASSERT(g_out[i] == want[i], "C09: a client-directed line carries the client's id, its address text and the announced port, then the arguments");
+        V_ASSERT(g_out_len == p + w, "C09: nothing but the arguments follows the address prefix (length)");
+        for (i = 0; i < 40; i++)
+            if (i < w && p + i < 128) V_ASSERT(g_out[p + i] == want[i], "C09: the arguments follow verbatim");
     }
     V_ASSERT(g_out_len < 128, "C09: a line built from short arguments is short");
     for (i = 0; i < 128; i++) if (i < g_out_len && g_out[i] == '\n') nl++;
